@@ -63,6 +63,8 @@ def run_sdp(ctx, prop, configs, nwalk_q, nwalk_t, own_preds):
     if sim.rc != 0:
         raise vlib.NoVerdict("simulation failed: %s" % sim.error)
     walks = split_walks(sim)
+    ctx.rng.shuffle(walks)
+    walks = walks[:nwalk]
     beh = []
     for i, w in enumerate(walks):
         beh.append({"id": len(beh), "config": configs[i % len(configs)], "steps": w})
